@@ -124,6 +124,10 @@ where
             .unwrap_or_else(|| Box::new(StdRng::from_os_rng()));
         let start_time = Instant::now();
         loop {
+            #[cfg(oxmpl_verif)]
+            if crate::verif::tick() {
+                break;
+            }
             if start_time.elapsed().as_secs_f64() > self.timeout {
                 break;
             }
@@ -318,5 +322,16 @@ where
         let goal_node_idx = goal_reached.ok_or(PlanningError::NoSolutionFound)?;
 
         Ok(self.reconstruct_path(start_state, parent_map, goal_node_idx))
+    }
+}
+
+#[cfg(oxmpl_verif)]
+impl<S: State + Clone, SP: StateSpace<StateType = S>, G: Goal<S>> PRM<S, SP, G> {
+    /// Read-only snapshot of the roadmap: (state, adjacency list) per milestone.
+    pub fn verif_roadmap(&self) -> Vec<(S, Vec<usize>)> {
+        self.roadmap
+            .iter()
+            .map(|n| (n.state.clone(), n.edges.clone()))
+            .collect()
     }
 }
